@@ -742,8 +742,10 @@ async fn task_point(env: &mut Env, p: &Point) -> Result<StreamObs, String> {
         }
         tokio::time::sleep(Duration::from_millis(20)).await;
     }
-    if !settled && !rip_log::read_snapshot(&snap_path).is_ok() {
-        return Err(format!("task {task_id}: no readable snapshot within {SETTLE:?}"));
+    if !settled {
+        // the terminal frame is published BEFORE it is logged and before the snapshot is written: without both in place the
+        // views cannot be judged (liveness is not C03) — a note, never a verdict
+        return Err(format!("task {task_id}: terminal frame not in the log / snapshot not complete within {SETTLE:?}"));
     }
     let snap = rip_log::read_snapshot(&snap_path).map_err(|e| e.to_string());
     let log = lines_from(&log_path, offset).and_then(|(ls, _)| stream_lines(&ls, StreamKind::Task, &task_id));
